@@ -1,9 +1,11 @@
 """Client for the persistent C++ probe (one JSON object per line each way)."""
 import json
 import os
+import select
 import shutil
 import subprocess
 import tempfile
+import time
 
 
 class ProbeCrash(Exception):
@@ -49,6 +51,7 @@ class Probe:
         if env:
             self.env.update(env)
         self.p = None
+        self.timeout = float(os.environ.get("VERIF_PROBE_TIMEOUT", "900"))   # seconds per request: beyond = hang
         self.calls = 0
         self.restarts = 0
         self._start()
@@ -56,8 +59,9 @@ class Probe:
     def _start(self):
         self.errf = open(os.path.join(self.tmp, "stderr.%d" % self.restarts), "wb+")
         self.p = subprocess.Popen([self.exe], stdin=subprocess.PIPE, stdout=subprocess.PIPE,
-                                  stderr=self.errf, env=self.env, bufsize=1 << 16)
-        self.rf = self.p.stdout
+                                  stderr=self.errf, env=self.env, bufsize=0)
+        self.rfd = self.p.stdout.fileno()
+        self.rbuf = bytearray()
 
     def _stderr_tail(self):
         try:
@@ -80,15 +84,20 @@ class Probe:
         """send request, return decoded reply dict (no exception mapping)"""
         line = (json.dumps(req, ensure_ascii=True) + "\n").encode("ascii")
         self.calls += 1
+        self._deadline = time.time() + self.timeout
         try:
             self.p.stdin.write(line)
             self.p.stdin.flush()
             rep = self._readline()
+            # replies are marked "@@R " at line start; anything else is chatter of the library on stdout
+            while rep and not rep.startswith(b"@@R "):
+                rep = self._readline()
+        except TimeoutError:
+            err = self._stderr_tail()
+            self.restart()
+            raise ProbeCrash("probe did not answer within %.0f s (hang)" % self.timeout, req, "HANG: no reply within the time bound\n" + err)
         except (BrokenPipeError, OSError):
             rep = b""
-        # replies are marked "@@R " at line start; anything else is chatter of the library on stdout
-        while rep and not rep.startswith(b"@@R "):
-            rep = self._readline()
         rep = rep[4:] if rep else rep
         if not rep:
             rc = self.p.wait()
@@ -108,14 +117,24 @@ class Probe:
         return r
 
     def _readline(self):
-        buf = bytearray()
+        """next line from the probe's stdout; b"" on EOF; raises TimeoutError after self.timeout seconds"""
+        deadline = getattr(self, "_deadline", None)
         while True:
-            chunk = self.rf.readline()
+            i = self.rbuf.find(b"\n")
+            if i >= 0:
+                line = bytes(self.rbuf[:i + 1])
+                del self.rbuf[:i + 1]
+                return line
+            wait = None if deadline is None else max(0.0, deadline - time.time())
+            r, _, _ = select.select([self.rfd], [], [], wait)
+            if not r:
+                raise TimeoutError()
+            chunk = os.read(self.rfd, 1 << 16)
             if not chunk:
-                return bytes(buf)
-            buf += chunk
-            if buf.endswith(b"\n"):
-                return bytes(buf)
+                rest = bytes(self.rbuf)
+                self.rbuf.clear()
+                return rest if rest.endswith(b"\n") else b""
+            self.rbuf += chunk
 
     def call(self, cmd, **kw):
         kw["cmd"] = cmd
